@@ -130,8 +130,10 @@ func (sc *shapeChecker) checkResult(v Val, g *smt.Term, nested bool) {
 			for _, k := range []string{"component", "resultPath"} {
 				if f, ok := getField(e.V, k); !ok || !isConcrete(f) {
 					sc.fail("C12.result-shape.trace-entry", ge, "trace entry without "+k)
-				} else if _, isS := f.(ast.String); !isS {
+				} else if fs, isS := f.(ast.String); !isS {
 					sc.fail("C12.result-shape.trace-entry", ge, "trace entry "+k+" is not a string")
+				} else if k == "component" && string(fs) == "" {
+					sc.fail("C12.result-shape.trace-entry", ge, "trace entry names no component")
 				}
 			}
 		}
@@ -262,7 +264,7 @@ func (sc *shapeChecker) checkLocation(v Val, g *smt.Term, node int, label string
 	sc.fail(label, smt.And(g, bad), fmt.Sprintf("location of a result about n%d: %s", node+1, describe(loc)))
 }
 
-var placeholderRe = regexp.MustCompile(`\{\{\s*ex\.p_?(\d+)\s*}}`)
+var placeholderRe = regexp.MustCompile(`\{\{\s*ex\.(p[_-]?\d+)\s*}}`)
 
 func scalarText(v ast.Value) (string, bool) {
 	switch x := v.(type) {
@@ -332,8 +334,10 @@ func placeholderPreds(phs [][]string) []int {
 	var preds []int
 	seen := map[int]bool{}
 	for _, ph := range phs {
-		p := 0
-		fmt.Sscan(ph[1], &p)
+		p := predOfLocal(ph[1])
+		if p < 0 {
+			continue
+		}
 		if !seen[p] {
 			seen[p] = true
 			preds = append(preds, p)
@@ -348,8 +352,10 @@ func placeholderPreds(phs [][]string) []int {
 func expectedMessage(message string, phs [][]string, subs map[int][]int, pool []PoolVal) (string, bool) {
 	want := shownMessage(message)
 	for _, ph := range phs {
-		p := 0
-		fmt.Sscan(ph[1], &p)
+		p := predOfLocal(ph[1])
+		if p < 0 {
+			return "", false
+		}
 		sub := subs[p]
 		text := "null"
 		switch len(sub) {
